@@ -49,6 +49,8 @@ structure AMsg where
   present : List Nat := []         -- codes (vendor 0) of the top-level AVPs on the wire
   fa : List Nat := []              -- codes inside Failed-AVP (outgoing)
   cea : String := ""               -- CEA payload summary (outgoing)
+  /-- a Host-IP-Address AVP whose payload does not decode as an address: the typed attribute holds `None` -/
+  badIp : Bool := false
   deriving Repr, Inhabited
 
 def AMsg.isRequest (m : AMsg) : Bool := m.flags &&& 0x80 ≠ 0
@@ -523,6 +525,8 @@ def receiveCer (s : St) (cid : Nat) (m : AMsg) (info : MsgInfo) : HR :=
         else
           let s := s.modConn cid fun c =>
             { c with authApps := sa, acctApps := sc, originHost := s.cfg.host, hostIdentity := cerHost }
+          -- `conn.host_ip_address = [i[1] for i in message.host_ip_address]`: an undecodable address is `None`
+          if m.badIp then (s, some .typeError) else
           let s := assignPeerConnection s cid
           let s := flagConnectionAsReady s cid
           let r := sendMessage s cid { ans0 with rc := some 2001 } true
